@@ -60,7 +60,8 @@ def run(chk: Check) -> None:
     prog = program(chk)
     chk.technique = "abstract interpretation of BalancedMove/CommutativeSwap over materialised ancestor chains + " \
                     "normal-form comparison of L-R up to a non-zero unit"
-    depth = 3 if chk.tier == "quick" else 4
+    from sa.rulecases import UPDEPTH
+    depth = UPDEPTH[chk.tier]
     chk.explanation = (
         "Decides: for every applicable case of BalancedMove (both move types), with the chain of ancestors between "
         f"the moved node and the '=' root materialised up to {depth} levels above the node (every kind x side of "
